@@ -1,8 +1,9 @@
 import Deb822Verif.Driver.Pgp
+import Deb822Verif.Driver.Deb
 open Deb822Verif
 
 def dispatch (op : String) (args : List String) : String :=
-  let r := (Driver.Pgp.handle op args)
+  let r := (Driver.Pgp.handle op args) <|> (Driver.Deb.handle op args)
   match r with
   | some s => s
   | none => "bad-op"
